@@ -31,7 +31,7 @@ def run(tier, seed):
     rep = C.Report("C15", tier, seed)
     gate = C.proof_gate("C15")
     rng = random.Random(seed)
-    nprog = 30 if tier == "quick" else 300
+    nprog = 30 if tier == "quick" else 1500
     with C.Scratch("c15") as scratch:
         from . import implenv
         m = implenv.setup(scratch)
